@@ -17,6 +17,7 @@ import (
 	"os"
 	"reflect"
 	"runtime"
+	"sort"
 	"strconv"
 	"strings"
 	"time"
@@ -52,6 +53,7 @@ type numBad struct {
 }
 
 type numRes struct {
+	DG     uint64   `json:"dg"`
 	ID     int      `json:"id"`
 	Evals  int      `json:"evals"`
 	Oracle int      `json:"oracle_disagreements"`
@@ -106,11 +108,21 @@ func decodeBoth(dest, lit string, api sonic.API) (stdVal string, stdErr bool, sV
 		}()
 		e2 = api.UnmarshalFromString(lit, pg)
 	}()
+	obsAdd(dest, lit, showVal(pg), e2)
 	return showVal(ps), e1 != nil, showVal(pg), e2 != nil
 }
 
+var numDestNames = func() []string {
+	var out []string
+	for d := range numDests {
+		out = append(out, d)
+	}
+	sort.Strings(out)
+	return out
+}()
+
 func numCheckLit(res *numRes, lit, class string, rules map[string]string) {
-	for dest := range numDests {
+	for _, dest := range numDestNames {
 		stdVal, stdErr, sVal, sErr := decodeBoth(dest, lit, sonic.ConfigStd)
 		res.Evals++
 		if rules != nil {
@@ -251,6 +263,8 @@ func numHandle(in []byte) []byte {
 		return []byte(`{"error":"bad case"}`)
 	}
 	res := numRes{ID: c.ID}
+	od := obsBegin()
+	defer func() {}()
 	r := rand.New(rand.NewSource(c.Seed*1000003 + int64(c.ID)))
 	switch c.Kind {
 	case "shape":
@@ -267,7 +281,13 @@ func numHandle(in []byte) []byte {
 		}
 		lit := v.String()
 		class := fmt.Sprintf("2^%d%+d", c.K, c.Delta)
-		for dest, in := range c.In {
+		var inDests []string
+		for d := range c.In {
+			inDests = append(inDests, d)
+		}
+		sort.Strings(inDests)
+		for _, dest := range inDests {
+			in := c.In[dest]
 			stdVal, stdErr, sVal, sErr := decodeBoth(dest, lit, sonic.ConfigStd)
 			res.Evals++
 			if stdErr == in { // encoding/json must agree with the specification's range verdict
@@ -302,6 +322,7 @@ func numHandle(in []byte) []byte {
 			numCheckLit(&res, lit, c.Class, nil)
 		}
 	}
+	res.DG = od.sum
 	out, _ := json.Marshal(res)
 	return out
 }
@@ -504,8 +525,10 @@ func numMain(args []string) int {
 	nfl := fs.Int("floats", 150, "random floats per boundary class")
 	workers := fs.Int("workers", runtime.NumCPU(), "workers")
 	envs := fs.String("env", "", "comma separated KEY=VALUE for the workers")
+	digests := fs.String("digests", "", "write per-case observation digests to this file")
 	fs.Parse(args)
 	t0 := time.Now()
+	var dgs digestFile
 	S := numSummary{BadBySig: map[string]int{}, Classes: map[string]int{}}
 	var env []string
 	if *envs != "" {
@@ -562,7 +585,14 @@ func numMain(args []string) int {
 			}
 		}
 		r := rand.New(rand.NewSource(*seed))
-		for class, lits := range floatClasses(r, *nfl) {
+		fc := floatClasses(r, *nfl)
+		var classNames []string
+		for class := range fc {
+			classNames = append(classNames, class)
+		}
+		sort.Strings(classNames)
+		for _, class := range classNames {
+			lits := fc[class]
 			S.Classes[class] = len(lits)
 			for i := 0; i < len(lits); i += 20 {
 				j := i + 20
@@ -582,6 +612,7 @@ func numMain(args []string) int {
 				return
 			}
 			S.Cases++
+			dgs.add(r.ID, r.DG)
 			S.NonTrivial++
 			S.Evals += r.Evals
 			S.Oracle += r.Oracle
@@ -613,6 +644,7 @@ func numMain(args []string) int {
 		}
 	}
 	S.WallS = time.Since(t0).Seconds()
+	dgs.write(*digests)
 	b, _ := json.MarshalIndent(S, "", " ")
 	if *out != "" {
 		os.WriteFile(*out, b, 0o644)
